@@ -243,6 +243,14 @@ func execProgram(p sProgram, prefix []int, inject func(l1, l2 *tierStore, res []
 							req.Quiet = append(req.Quiet, false)
 						}
 						err = o.Get(req)
+					case wire.GetE:
+						req := common.GetRequest{}
+						for i, k := range c.Keys {
+							req.Keys = append(req.Keys, []byte(k))
+							req.Opaques = append(req.Opaques, uint32(i))
+							req.Quiet = append(req.Quiet, false)
+						}
+						err = o.GetE(req)
 					}
 				}()
 				if h := s.threads[tid].held; h != 0 {
@@ -262,6 +270,10 @@ func execProgram(p sProgram, prefix []int, inject func(l1, l2 *tierStore, res []
 				}
 				mut := c.Kind != wire.Get && c.Kind != wire.Gat && c.Kind != wire.Touch
 				switch c.Kind {
+				case wire.GetE:
+					// only L1Only answers gete (the two-tier orchestrators return "unknown
+					// command"); it takes part in the lock checks, not in the value model
+					run.History = append(run.History, fmt.Sprintf("[%d,%d] T%d gete %v -> %s (%d values)", call, ret, ti, c.Keys, class, len(res.hits)))
 				case wire.Get, wire.Gat:
 					byOpq := map[uint32]common.GetResponse{}
 					for _, h := range res.hits {
